@@ -160,7 +160,6 @@ func (r *runner) eval(rec []byte, desc string) {
 		vclass = 0
 	}
 	sh := fmt.Sprintf("v%d x%v c%s e%s g%s p%d", vclass, p.HasExtBlock, shape16(p.Ciphers), shape16(p.ExtTypes()), shape16(p.Groups), min(len(p.Points), 3))
-	_ = vclass
 	nontrivial := !p.HasExtBlock || len(p.Ciphers) <= 1 || len(p.Exts) <= 1 || (p.HasGroups && len(p.Groups) <= 1) || strings.ContainsAny(shape16(p.Ciphers)[2:]+shape16(p.ExtTypes())[2:]+shape16(p.Groups)[2:], "123456789abcdef")
 	if p.HasSNI && (p.SNIListLen > 255) {
 		sh += fmt.Sprintf(" sni%d", p.SNIListLen>>8)
